@@ -5,6 +5,8 @@ import (
 	"encoding/base64"
 	"encoding/hex"
 	"fmt"
+	"io"
+	"os"
 
 	"free5gclib/nas"
 	"free5gclib/nas/nasMessage"
@@ -498,4 +500,31 @@ func pad(b []byte, n int) []byte {
 
 func lenClasses(prefix string, n int) []string {
 	return []string{fmt.Sprintf("%slen%%16=%d", prefix, n%16)}
+}
+
+// captureStdout runs f with os.Stdout redirected into a pipe and returns what f printed (tglib.NASDecode reports
+// the outcome of its MAC verification only by printing). The tests are single-threaded, so the swap is safe.
+func captureStdout(f func()) string {
+	old := os.Stdout
+	rd, wr, err := os.Pipe()
+	if err != nil {
+		f()
+		return ""
+	}
+	done := make(chan []byte, 1)
+	go func() {
+		b, _ := io.ReadAll(rd)
+		done <- b
+	}()
+	os.Stdout = wr
+	func() {
+		defer func() {
+			os.Stdout = old
+			wr.Close()
+		}()
+		f()
+	}()
+	b := <-done
+	rd.Close()
+	return string(b)
 }
